@@ -2247,6 +2247,11 @@ func (dsc *dataStoreCommand) getHashTableRandField(keyName string, count *int, w
 			arraySize = 1
 		} else {
 			arraySize = -(*count)
+			if arraySize < 0 || arraySize > math.MaxInt32 {
+				// -2^63 cannot be negated, and nobody can receive that many elements
+				output.data = respErrorString("ERR value is out of range")
+				return
+			}
 		}
 
 		items = m.pickRandomItems(arraySize, 85)
@@ -2525,6 +2530,11 @@ func (dsc *dataStoreCommand) getSetRandMember(keyName string, count *int) (outpu
 			arraySize = 1
 		} else {
 			arraySize = -(*count)
+			if arraySize < 0 || arraySize > math.MaxInt32 {
+				// -2^63 cannot be negated, and nobody can receive that many elements
+				output.data = respErrorString("ERR value is out of range")
+				return
+			}
 		}
 
 		items = m.pickRandomItems(arraySize, 85)
